@@ -52,6 +52,9 @@ CLAIMED = {
  "C09": dict(engine="E2", technique="stateless deviation-bounded schedule exploration of the real code; deadlock oracle",
    text="For every exported entry point against a write-lock taker (and further partners), warm and cold handles, sync and async configurations, every schedule with at most the stated number of deviations is executed on the real code under a cooperative scheduler with an exact writer-preferring RWMutex model; no reachable state may have unfinished threads and none enabled.",
    note="2-3 threads, 1-2 calls each, deviation bound 1-2 (quick) / 3 (thorough); scheduling points at lock acquisitions, context checks, sleeps.", ref="6/C09"),
+ "C08": dict(engine="E2", technique="stateless deviation-bounded schedule exploration under the race detector + brute-force linearizability check",
+   text="Every (reader or refinement, writer) pair plus writer/writer, reader/reader and two-call programs, warm and cold, in sync, cached and async configurations: every schedule within the deviation bound is executed on the real code, once built with -race (hand-off invisible to the detector, lock grants mirrored on real mutexes; reports attributed to package sod are violations) and once without for a deeper bound, where the recorded history plus final state must be explained by a sequential order on the reference that respects real-time order.",
+   note="2-3 threads x 1-2 calls; race phase bound 1 (quick) / 2; linearizability phase bound 2 (1 with the flusher on quick) / 3. Control/Repair while writes are pending are outside the statement and not scheduled in async configurations.", ref="6/C08"),
 }
 
 NOT_YET = {}
